@@ -39,9 +39,11 @@ def sha(obj) -> str:
 
 
 def lean_source_hash() -> str:
+    """hash of every Lean source, including the translator-generated files (they are rewritten from /repo on every run
+    of the checks that own them, so a change in /repo that changes them invalidates the cached audit)"""
     h = hashlib.sha256()
     for root, _dirs, files in sorted(os.walk(LEAN_DIR)):
-        if ".lake" in root or "Generated" in root:
+        if ".lake" in root:
             continue
         for f in sorted(files):
             if f.endswith(".lean") or f.endswith(".toml"):
